@@ -8,4 +8,5 @@ type Profile struct {
 
 var Profiles = map[string]Profile{
 	"oracle": {Mods: []string{"bank", "oracle", "distr"}, Run: OracleProfile},
+	"gov":    {Mods: []string{"bank", "gov", "cert", "staking"}, Run: GovProfile},
 }
